@@ -9,6 +9,7 @@ import (
 	"net"
 	"net/http"
 	"net/http/httptest"
+	"sync"
 	"sync/atomic"
 	"testing"
 	"time"
@@ -177,6 +178,145 @@ func TestVerifC19Behaviour(t *testing.T) {
 		}
 	}
 	transport.SetConfig(&config.Config{})
+	L.End(true)
+}
+
+// C19 over request histories: what a request finds depends on what earlier
+// requests left behind in the transport (idle connections, connection counts).
+func TestVerifC19History(t *testing.T) {
+	L := ev.Begin("C19", "c19-history", "exploration",
+		"every history up to length 2 (thorough 3) over {prompt request, request whose upstream holds its headers, burst of 3 concurrent such requests}, each on its own upstream behind one real HTTPProxy (transport.SetConfig + main.newHTTPProxy + ServeHTTP) configured with proxy.responseheadertimeout=3s and proxy.maxconn=1, so later requests meet idle connections and connection counts left by earlier ones. oracle: a prompt request is served 200; every request to a holding upstream is answered 504 no later than the timeout plus 2.5s slack (twice the timeout, or queueing behind other timed-out requests, exceeds it), while the upstream is still holding. non-trivial = histories in which a held request follows an earlier request")
+	const rht = 3 * time.Second
+	const slack = 2500 * time.Millisecond
+	events := []string{"prompt", "held", "burst-held"}
+	maxLen := 2
+	if ev.Thorough() {
+		maxLen = 3
+	}
+	var hists [][]int
+	var rec func(cur []int)
+	rec = func(cur []int) {
+		if len(cur) > 0 {
+			hists = append(hists, append([]int{}, cur...))
+		}
+		if len(cur) == maxLen {
+			return
+		}
+		for i := range events {
+			rec(append(cur, i))
+		}
+	}
+	rec(nil)
+	type upstream struct {
+		srv  *httptest.Server
+		hold atomic.Value
+	}
+	ups := make([]*upstream, len(hists))
+	var routes bytes.Buffer
+	for i := range hists {
+		u := &upstream{}
+		u.srv = httptest.NewServer(http.HandlerFunc(func(w http.ResponseWriter, r *http.Request) {
+			if ch, _ := u.hold.Load().(chan struct{}); ch != nil {
+				<-ch
+			}
+			w.Write([]byte("ok"))
+		}))
+		ups[i] = u
+		fmt.Fprintf(&routes, "route add svc%d h%d.example/ http://%s/\n", i, i, u.srv.Listener.Addr().String())
+	}
+	cfg := &config.Config{}
+	cfg.Proxy.ResponseHeaderTimeout = rht
+	cfg.Proxy.DialTimeout = 5 * time.Second
+	cfg.Proxy.MaxConn = 1
+	cfg.Proxy.Strategy, cfg.Proxy.Matcher, cfg.GlobCacheSize = "rr", "prefix", 10
+	transport.SetConfig(cfg)
+	hp := newHTTPProxy(cfg, c19Stats())
+	tbl, err := route.NewTable(&routes)
+	if err != nil {
+		panic(err)
+	}
+	route.SetTable(tbl)
+	var mu sync.Mutex
+	var wg sync.WaitGroup
+	var transitions int64
+	states := map[string]bool{}
+	for hi, h := range hists {
+		hi, h := hi, h
+		wg.Add(1)
+		go func() {
+			defer wg.Done()
+			u := ups[hi]
+			var releases []chan struct{}
+			var names []string
+			do := func(held bool) (int, time.Duration) {
+				req, _ := http.ReadRequest(bufio.NewReader(bytes.NewBufferString(fmt.Sprintf("GET /x HTTP/1.1\r\nHost: h%d.example\r\n\r\n", hi))))
+				req.RemoteAddr = "10.1.1.1:999"
+				w := httptest.NewRecorder()
+				start := time.Now()
+				hp.ServeHTTP(w, req)
+				return w.Code, time.Since(start)
+			}
+			for k, ei := range h {
+				e := events[ei]
+				names = append(names, e)
+				n, held := 1, e != "prompt"
+				if e == "burst-held" {
+					n = 3
+				}
+				if held {
+					ch := make(chan struct{})
+					releases = append(releases, ch)
+					u.hold.Store(ch)
+				} else {
+					u.hold.Store((chan struct{})(nil))
+				}
+				codes, took := make([]int, n), make([]time.Duration, n)
+				var rw sync.WaitGroup
+				for j := 0; j < n; j++ {
+					j := j
+					rw.Add(1)
+					go func() { defer rw.Done(); codes[j], took[j] = do(held) }()
+				}
+				rw.Wait()
+				mu.Lock()
+				transitions++
+				L.Case()
+				if held && k > 0 {
+					L.NontrivialKey(fmt.Sprint(names))
+				}
+				states[fmt.Sprint(e, k > 0)] = true
+				for j := 0; j < n; j++ {
+					d := map[string]interface{}{"history": append([]string{}, names...), "responseheadertimeout": rht.String(), "maxconn": 1, "status": codes[j], "answered_after": took[j].String(), "request_of_burst": j}
+					L.Outcome(fmt.Sprint(e, codes[j]))
+					switch {
+					case !held && codes[j] != 200:
+						L.Violation("prompt-upstream-not-served", d)
+					case held && codes[j] != http.StatusGatewayTimeout:
+						L.Violation("timeout-not-reported-as-504", d)
+					case held && took[j] > rht+slack:
+						L.Violation("held-upstream-holds-the-client-beyond-the-response-header-timeout", d)
+					}
+					if len(h) == maxLen && hi%7 == 0 && j == 0 {
+						L.Sample(d)
+					}
+				}
+				mu.Unlock()
+			}
+			for _, ch := range releases {
+				close(ch)
+			}
+		}()
+	}
+	wg.Wait()
+	for _, u := range ups {
+		u.srv.Close()
+	}
+	transport.SetConfig(&config.Config{})
+	L.AddStates(int64(len(states)))
+	L.AddTransitions(transitions)
+	L.AddTraces(int64(len(hists)))
+	L.Set("histories", len(hists))
+	L.Set("max_length", maxLen)
 	L.End(true)
 }
 
